@@ -28,6 +28,9 @@ def run(ctx, db, tier):
     fifo_ops(ctx, db)
     pause_rule(ctx, db)
     resumed_once(ctx, db)
+    from . import C06
+    C06.self_inclusion(ctx, db, 'C05.awaiter-queued-once')
+    C06.consumers_clear(ctx, db, 'C05.handles-consumed-once')
 
 
 def is_resume(ev):
@@ -318,8 +321,8 @@ RQ_OPS = {
 }
 
 
-def fifo_ops(ctx, db):
-    rid = ctx.rule('C05.fifo-ops', 'SIBLINGS+WHO', 'the per-thread ready deque is appended only at the back and consumed only at the front, by the tabled functions; the user-level '
+def fifo_ops(ctx, db, rid='C05.fifo-ops'):
+    rid = ctx.rule(rid, 'SIBLINGS+WHO', 'the per-thread ready deque is appended only at the back and consumed only at the front, by the tabled functions; the user-level '
                    'dequeue helpers swap_coroutine / resume_handle_next have no caller inside the library (a library function that transferred into the queue head would '
                    'pre-empt the running coroutine)', floor=10)
     seen = set()
